@@ -10,6 +10,7 @@ import GIV.Lemmas.TxtarQuote
 import GIV.Lemmas.TxtarIdxLoop
 import GIV.Lemmas.TxtarIdxQuote
 import GIV.Lemmas.TxtarGoLoop
+import GIV.Lemmas.XTxtarGo
 
 namespace GIV.C14
 open GIV GIV.Txtar
@@ -158,5 +159,72 @@ theorem go_Unquote_Quote : ∀ d q, GIV.Go.Txtar.Quote d = some (q, none) →
   rw [hg2, hu]
 
 example : GIV.Go.Txtar.Quote (lit "a\n-- x --\n") = some (lit ">a\n>-- x --\n", none) := by decide +kernel
+
+/-! ### … with x/tools' `Format` translated from the library source
+
+The theorems above that mention `format` are about the model's transcription of golang.org/x/tools/txtar
+`Format`.  `GIV.Go.XTxtar.Format` is the translation of the library source the harness is built against
+(GIV/Gen/XTxtarGo.lean, regenerated on every run), proved equal to `format` for every archive in
+GIV/Lemmas/XTxtarGo.lean; so the operational readings hold with every function translated from source. -/
+
+/-- the translated `Parse` of /repo as the model's `parse` (C03's `go_Parse_agrees`) -/
+theorem go_Parse_model : ∀ d, GIV.Go.Txtar.Parse d = (parse d).map TxtarGo.toGoArchive :=
+  have : FLit := ⟨rfl, rfl⟩; have : FNLM := ⟨rfl⟩
+  fun d => by rw [TxtarGo.Parse_eq, parseIdx_eq]
+
+theorem parse_of_go {b : Bytes} {a : Archive}
+    (h : GIV.Go.Txtar.Parse b = some (TxtarGo.toGoArchive a)) : parse b = some a := by
+  rw [go_Parse_model] at h
+  cases hp : parse b with
+  | none => rw [hp] at h; cases h
+  | some a' =>
+    rw [hp] at h
+    simp only [Option.map_some, Option.some.injEq] at h
+    have := congrArg TxtarGo.ofGoArchive h
+    rw [TxtarGo.ofGo_toGo, TxtarGo.ofGo_toGo] at this
+    rw [this]
+
+/-- Operational reading of `NeedsQuote` over the translated functions: it is false exactly when storing
+`d` as a file body with x/tools' `Format` and parsing the result with /repo's `Parse` gives back exactly
+that one file, with `fixNL d` as its data. -/
+theorem go_NeedsQuote_false_iff_body_safe : ∀ d, GIV.Go.Txtar.NeedsQuote d = some false ↔
+    ∃ b, GIV.Go.XTxtar.Format ⟨[], [⟨lit "f", d⟩]⟩ = some b ∧
+         GIV.Go.Txtar.Parse b = some ⟨[], [⟨lit "f", fixNL d⟩]⟩ := by
+  intro d
+  rw [go_NeedsQuote_agrees, needsQuote_false_iff_body_safe, XTxtarGo.Format_eq]
+  constructor
+  · intro h
+    refine ⟨_, rfl, ?_⟩
+    rw [go_Parse_model]
+    show Option.map TxtarGo.toGoArchive (parse (format ⟨[], [⟨lit "f", d⟩]⟩)) = _
+    rw [h]; rfl
+  · rintro ⟨b, hb, hp⟩
+    simp only [Option.some.injEq] at hb
+    subst hb
+    exact parse_of_go (a := ⟨[], [⟨lit "f", fixNL d⟩]⟩) hp
+
+example : (GIV.Go.XTxtar.Format ⟨[], [⟨lit "f", lit "a\n-- x --"⟩]⟩).bind GIV.Go.Txtar.Parse =
+    some ⟨[], [⟨lit "f", lit "a\n"⟩, ⟨lit "x", []⟩]⟩ := by decide +kernel
+example : (GIV.Go.XTxtar.Format ⟨[], [⟨lit "f", lit "a\n --x --"⟩]⟩).bind GIV.Go.Txtar.Parse =
+    some ⟨[], [⟨lit "f", lit "a\n --x --\n"⟩]⟩ := by decide +kernel
+
+open GIV.TxtarGo in
+/-- What the translated `Quote` returns survives x/tools' `Format` followed by /repo's `Parse` unchanged
+(as the body of a file with an admissible name, after any admissible comment). -/
+theorem go_quote_survives : ∀ d q n c, GIV.Go.Txtar.Quote d = some (q, none) → NameOK n → BodyOK c →
+    ∃ b, GIV.Go.XTxtar.Format ⟨c, [⟨n, q⟩]⟩ = some b ∧ GIV.Go.Txtar.Parse b = some ⟨c, [⟨n, q⟩]⟩ := by
+  intro d q n c h hn hc
+  obtain ⟨g, hg, hq⟩ := (go_Quote_Unquote_agree d).1
+  rw [h] at hg
+  cases hg
+  have hq' := QOk_ok hq
+  refine ⟨_, XTxtarGo.Format_eq _, ?_⟩
+  rw [go_Parse_model]
+  show Option.map toGoArchive (parse (format ⟨c, [⟨n, q⟩]⟩)) = _
+  rw [quote_survives_comment d q n c hq' hn hc]; rfl
+
+example : (GIV.Go.Txtar.Quote (lit "a\n-- x --\n")).bind (fun r =>
+      (GIV.Go.XTxtar.Format ⟨[], [⟨lit "f", r.1⟩]⟩).bind GIV.Go.Txtar.Parse) =
+    some ⟨[], [⟨lit "f", lit ">a\n>-- x --\n"⟩]⟩ := by decide +kernel
 
 end GIV.C14
